@@ -12,7 +12,7 @@ open PgVerif PgVerif.Spec
 
 /-- every (attlen, attalign) pair PostgreSQL's built-in types have, plus the rarer varlena alignments -/
 def layoutClasses : List (Int × Nat) :=
-  [(1, 1), (2, 2), (4, 4), (8, 8), (6, 2), (6, 4), (8, 4), (12, 8), (16, 8), (16, 1), (24, 8), (32, 8), (64, 1),
+  [(1, 1), (2, 2), (4, 4), (8, 8), (6, 2), (6, 4), (8, 4), (12, 8), (12, 4), (16, 8), (16, 1), (24, 8), (32, 8), (64, 1),
    (-1, 4), (-1, 8), (-1, 4), (-1, 1), (-1, 2), (-2, 1)]
 
 /-- type oids outside every table of the tool (decodeScalar's default branch) -/
@@ -25,7 +25,7 @@ def typidsFor (len : Int) : List Int :=
   else if len = 4 then [23, 26, 0]
   else if len = 8 then [20, 0, 99999]
   else if len = 64 then [19, 0]
-  else if len = -1 then [25, 1043, 1042, 0, 99999, 142, 17]
+  else if len = -1 then [25, 1043, 1042, 0, 99999, 142, 17, 2970, 5038]
   else unknownOids
 
 def colName (i : Nat) : Bytes := strBytes s!"c{i}"
@@ -276,6 +276,136 @@ def genAuthFile (nRoles : Nat) : Gen (List Block × List (Role × Nat)) := do
     blocks := blocks.push (flush slots)
     out := out ++ cur
   return (blocks.toList, out.toList)
+
+/-! ### row versions with real header fields (xmin / xmax / cid / t_ctid / t_infomask2 flag bits) -/
+
+/-- t_ctid: block number as two uint16 halves (hi, lo), then the offset number -/
+def ctidBytes (blk off : Nat) : Bytes := le 2 (blk / 65536) ++ le 2 (blk % 65536) ++ le 2 off
+
+/-- header fields of a stored version: never updated (bootstrap xmin 1, frozen 2, ordinary xids), the dead version
+an UPDATE / ALTER leaves behind (xmax, t_ctid → successor, KEYS_UPDATED / HOT_UPDATED), its successor (ONLY_TUPLE, maybe
+updated again), or arbitrary values -/
+def genHdr : Gen HdrFields := do
+  let xmin ← Gen.oneOf [1, 2, 3, 700, 2 ^ 32 - 1, ← Gen.below (2 ^ 32), ← Gen.range 3 100000]
+  match ← Gen.below 5 with
+  | 0 | 1 => return { xmin, ctid := ctidBytes (← Gen.below 4) (← Gen.range 1 200) }
+  | 2 => return { xmin, xmax := ← Gen.oneOf [xmin + 1, ← Gen.below (2 ^ 32)], cid := ← Gen.below 8,
+                  ctid := ctidBytes (← Gen.oneOf [0, 1, 70000, 2 ^ 32 - 2]) (← Gen.range 1 291), flags2 := ← Gen.oneOf [4, 8, 12] }
+  | 3 => return { xmin, cid := ← Gen.below 8, ctid := ctidBytes (← Gen.below 4) (← Gen.range 1 200),
+                  flags2 := ← Gen.oneOf [16, 20, 24, 28] }
+  | _ => return { xmin, xmax := ← Gen.below (2 ^ 32), cid := ← Gen.below (2 ^ 32), ctid := ← Gen.bytes 6, flags2 := ← Gen.below 32 }
+
+/-- `genRowPage` with header fields per version; returns the versions in pointer order -/
+def genRowPageH (cols : List Col) (size : Nat) : Gen (Page × List RowVer) := do
+  let nSlots ← match ← Gen.below 5 with
+    | 0 => pure 0
+    | 1 => pure 1
+    | _ => Gen.range 1 (4 + 2 * size)
+  let mut budget := 8192 - 24 - 4 * (nSlots + 4)
+  let mut slots : Array (Bytes × Tuple) := #[]
+  let mut vers : Array RowVer := #[]
+  for _ in [0:nSlots] do
+    let r ← genRow cols
+    let h ← genHdr
+    let t := formTupleH h cols r
+    let junkLen := (8 - tupleLen t % 8) % 8
+    if tupleLen t + junkLen ≤ budget then
+      budget := budget - tupleLen t - junkLen
+      slots := slots.push (zeros junkLen, t)
+      vers := vers.push (h, r)
+  let mut lps : Array LP := #[]
+  for i in [0:slots.size] do lps := lps.push (.normal i)
+  let nOther ← Gen.below 3
+  for _ in [0:nOther] do
+    lps := lps.push (.other (← Gen.below 8192) (← Gen.oneOf [0, 2, 3]) (← Gen.below 100))
+  let lpl ← Gen.shuffle lps.toList
+  let lower := 24 + 4 * lpl.length
+  let used := (slots.toList.map fun s => s.1.length + tupleLen s.2).sum
+  let slack := 8192 - lower - used
+  let freeLen ← Gen.oneOf [0, slack, slack / 2]
+  let p := mkPage slots.toList lpl freeLen
+  let order := lpl.filterMap fun | .normal k => vers[k]? | .other .. => none
+  return (p, order)
+
+/-- a heap file of row versions: blocks (pages and all-zero blocks), a trailing partial block, and the stored
+versions in scan order, each with the byte offset of its page -/
+def genRowHeapH (cols : List Col) (size : Nat) : Gen (List Block × Bytes × List (RowVer × Nat)) := do
+  let n ← match ← Gen.below 4 with
+    | 0 => pure 1
+    | _ => Gen.range 1 (1 + size)
+  let mut blocks : Array Block := #[]
+  let mut vers : Array (RowVer × Nat) := #[]
+  for i in [0:n] do
+    if ← Gen.prob 1 8 then blocks := blocks.push .zero
+    else
+      let (p, order) ← genRowPageH cols size
+      blocks := blocks.push (.page p)
+      for v in order do vers := vers.push (v, 8192 * i)
+  let tail ← match ← Gen.below 5 with
+    | 0 => Gen.bytes (← Gen.oneOf [1, 24, 4096, 8191])
+    | _ => pure []
+  return (blocks.toList, tail, vers.toList)
+
+/-- pg_authid with real header fields: role versions (header fields, role, infomask) over pages whose line pointers
+are shuffled and mixed with unused / redirect / dead ones, with free space between pointers and tuples, all-zero
+blocks between pages and a trailing partial block.  A dead older version (ALTER ROLE) carries xmax, t_ctid → successor
+and HOT_UPDATED | KEYS_UPDATED; its successor ONLY_TUPLE. -/
+def genAuthFileH (nRoles : Nat) : Gen (List Block × Bytes × List (HdrFields × Role × Nat)) := do
+  let mut blocks : Array Block := #[]
+  let mut out : Array (HdrFields × Role × Nat) := #[]
+  let mut slots : Array (Bytes × Tuple) := #[]
+  let mut cur : Array (HdrFields × Role × Nat) := #[]
+  let mut budget := 8192 - 24 - 16
+  let flush (slots : Array (Bytes × Tuple)) (cur : Array (HdrFields × Role × Nat)) :
+      Gen (Block × List (HdrFields × Role × Nat)) := do
+    let mut lps : Array LP := #[]
+    for i in [0:slots.size] do lps := lps.push (.normal i)
+    for _ in [0:← Gen.below 4] do
+      lps := lps.push (.other (← Gen.below 8192) (← Gen.oneOf [0, 2, 3]) (← Gen.below 100))
+    let lpl ← if ← Gen.prob 1 2 then Gen.shuffle lps.toList else pure lps.toList
+    let lower := 24 + 4 * lpl.length
+    let used := (slots.toList.map fun s => s.1.length + tupleLen s.2).sum
+    let slack := 8192 - lower - used
+    let freeLen ← Gen.oneOf [slack, slack, 0, slack / 2]
+    let order := lpl.filterMap fun | .normal k => cur[k]? | .other .. => none
+    return (.page (mkPage slots.toList lpl freeLen), order)
+  for k in [0:nRoles] do
+    let r ← genRole k
+    let xid ← Gen.oneOf [1, 3, 700, ← Gen.range 3 (2 ^ 32 - 2)]
+    -- versions: usually one live; sometimes a dead older version (ALTER ROLE) precedes it
+    let old : Bool ← Gen.prob 1 4
+    let olds : List (HdrFields × Role × Nat) ← (do
+      if old then
+        let pw : Option Bytes ← (do if ← Gen.bool then pure none else pure (some (← md5Like)))
+        let h : HdrFields := { xmin := xid, xmax := xid + 1, ctid := ctidBytes blocks.size (slots.size + 2), flags2 := ← Gen.oneOf [12, 12, 4, 8] }
+        pure [(h, { r with password := pw }, ← Gen.oneOf [0x0500, 0x0500, 0x0100, 0x0000])]
+      else pure [])
+    let mask ← Gen.oneOf [0x0900, 0x0900, 0x0100, 0x0500, 0x0A00, 0x0000, 0x2900]
+    let h : HdrFields ← (do
+      if old then pure { xmin := xid + 1, ctid := ctidBytes blocks.size (slots.size + 2), flags2 := 16 }
+      else if ← Gen.prob 1 6 then genHdr
+      else pure { xmin := xid, ctid := ctidBytes blocks.size (slots.size + 1) })
+    for (hv, rv, m) in olds ++ [(h, r, mask)] do
+      let t := encRoleH hv rv m
+      let junkLen := (8 - tupleLen t % 8) % 8
+      let need := tupleLen t + junkLen + 4
+      if need > budget then
+        let (b, order) ← flush slots cur
+        blocks := blocks.push b
+        out := out ++ order
+        if ← Gen.prob 1 6 then blocks := blocks.push .zero
+        slots := #[]; cur := #[]; budget := 8192 - 24 - 16
+      slots := slots.push (zeros junkLen, t)
+      cur := cur.push (hv, rv, m)
+      budget := budget - need
+  if slots.size > 0 || blocks.size == 0 then
+    let (b, order) ← flush slots cur
+    blocks := blocks.push b
+    out := out ++ order
+  let tail ← match ← Gen.below 4 with
+    | 0 => Gen.bytes (← Gen.oneOf [1, 24, 4096, 8191])
+    | _ => pure []
+  return (blocks.toList, tail, out.toList)
 
 /-! ### hostile schemas (C10) -/
 
